@@ -47,8 +47,9 @@ def _compiled():
     return _COMPILED
 
 
-def scan(text):
-    """executable reference scanner: returns ('ok', [(type, value), ...]) or ('reject', index)"""
+def scan(text, spans=None):
+    """executable reference scanner: returns ('ok', [(type, value), ...]) or ('reject', index); when `spans` is a list the
+    (start, end) offsets of the tokens are appended to it"""
     toks = []
     i, n = 0, len(text)
     comp = _compiled()
@@ -75,5 +76,7 @@ def scan(text):
             toks.append((t, lex[1:-1]))
         else:
             toks.append((t, lex))
+        if spans is not None and t not in ("WS", "LINE_COMMENT", "BLOCK_OPEN"):
+            spans.append((i, j))
         i = j
     return ("ok", toks)
